@@ -423,3 +423,7 @@ pub(super) fn execute_order_by<'a, S: GraphSnapshot + 'a>(
 
     PlanIterator::Dynamic(Box::new(sortable.into_iter().map(|(row, _)| row)))
 }
+
+#[cfg(kani)]
+#[path = "/verif/kani/query/plan_mid.rs"]
+mod kani_harness;
